@@ -101,7 +101,7 @@ type Req struct {
 	Ds      int  `json:"ds"`    // dataset selector: 0..3 = k-th created dataset (mod), 4 unknown uuid, 5 empty, 6 15 bytes, 7 17 bytes
 	Part    int  `json:"part"`  // partition selector: 0..2 = k-th partition of the dataset, 3 unknown, 4 malformed
 	Id      int  `json:"id"`    // item id selector: 0..5 pool, 6 empty, 7 15 bytes, 8 17 bytes
-	Vec     int  `json:"vec"`   // 0 right dimension, 1 empty, 2 dim+1, 3 NaN, 4 +Inf, 5 huge magnitudes, 6 dim-1
+	Vec     int  `json:"vec"`   // 0 right dimension, 1 empty, 2 dim+1, 3 NaN, 4 +Inf, 5 huge magnitudes, 6 dim-1, 7 right dimension, non-round components, all such vectors are scaled copies of one direction (valid)
 	Meta    int  `json:"meta"`  // 0 none, 1 small, 2 empty key, 3 256-byte key, 4 70000-byte value, 5 300 keys, 6 128-rune/256-byte key, 7 32768-rune/65536-byte value, 8 at the limits (255-byte key, 65535-byte value), 9 multi-byte at the limits
 	K       int  `json:"k"`     // search k selector
 	Batch   int  `json:"batch"` // batch size selector
@@ -123,7 +123,7 @@ var (
 )
 
 func (r Req) hostile() bool {
-	return hostileDs[r.Ds] || r.Id >= 6 || r.Vec != 0 || r.Meta >= 2 || r.K == 0 || r.K >= 4 || r.Batch == 0 || r.Batch >= 4 || r.BadItem != 0 || r.Part >= 3 ||
+	return hostileDs[r.Ds] || r.Id >= 6 || (r.Vec != 0 && r.Vec != 7) || r.Meta >= 2 || r.K == 0 || r.K >= 4 || r.Batch == 0 || r.Batch >= 4 || r.BadItem != 0 || r.Part >= 3 ||
 		(r.RPC == RCreate && (r.Dim >= 4 || r.P >= 3 || r.R >= 3))
 }
 
@@ -147,7 +147,7 @@ func genCase(t *rapid.T) Case {
 			Ds:      []int{0, 0, 0, 1, 2, 4, 5, 6, 7}[pickMostly0(9, "ds")],
 			Part:    pickMostly0(5, "part"),
 			Id:      rapid.IntRange(0, 5).Draw(t, "id") + 0*pickMostly0(1, "x"),
-			Vec:     pickMostly0(7, "vec"),
+			Vec:     []int{0, 1, 2, 3, 4, 5, 6, 7, 7, 7}[pickMostly0(10, "vec")],
 			Meta:    pickMostly0(10, "meta"),
 			K:       []int{2, 1, 3, 0, 4, 5}[pickMostly0(6, "k")],
 			Batch:   []int{2, 1, 3, 0, 4, 5}[pickMostly0(6, "batch")],
@@ -376,6 +376,10 @@ func vector(sel int, dim uint32, salt int) []float32 {
 	v := make([]float32, n)
 	for i := range v {
 		v[i] = float32((salt*7+i*3)%11) - 5
+		if sel == 7 {
+			// one direction with non-round components, scaled per salt: exactly parallel vectors of different length
+			v[i] = (0.731 + 1.187*float32(i%5) - 0.913*float32(i%3)) * (0.37 + 0.61*float32(salt%9))
+		}
 		switch sel {
 		case 3:
 			v[i] = float32(math.NaN())
@@ -458,7 +462,13 @@ func (r Req) batchItems(dim uint32) []*pb.BatchItem {
 		if r.Id >= 6 && items[0] != nil {
 			items[0].Id = idBytes(r.Id)
 		}
-		if r.Vec != 0 && items[len(items)-1] != nil {
+		if r.Vec == 7 {
+			for i, it := range items {
+				if it != nil && !(i == j && (r.BadItem == 2 || r.BadItem == 3)) {
+					it.Value = vector(7, dim, i)
+				}
+			}
+		} else if r.Vec != 0 && items[len(items)-1] != nil {
 			items[len(items)-1].Value = vector(r.Vec, dim, 2)
 		}
 	}
